@@ -88,6 +88,13 @@ def check_pbcd(inp):
       return 'different preprocessor objects accepted'
     except ValueError:
       pass
+    # ... in either order: clients with the library default preprocessor first, a custom one later
+    plain = [cds.ClientDataset(dict(d_.raw_examples)) for d_ in dsets[:-1]]
+    try:
+      list(cds.padded_batch_client_datasets(plain + [dsets[-1]], batch_size=b))
+      return 'clients with the default preprocessor followed by a client with another preprocessor were accepted'
+    except ValueError:
+      pass
     other = cds.ClientDataset({'x': dsets[-1].raw_examples['x']}, pre)
     try:
       list(cds.padded_batch_client_datasets(dsets[:-1] + [other], batch_size=b))
